@@ -218,7 +218,9 @@ def consistent (D : Model.ExecStatic.Defects) (req : CaseReq) (m : ModelOut) : B
     if m.plain.res.nq ≠ 0 || !req.strictValid then true
     else
       let r := Model.ExecStatic.run D req.S req.doc req.opName req.vars req.w req.fuel
-      r.val == m.plain.res.val && r.errs == m.plain.res.errs && r.log == m.plain.res.log
+      -- (an error without a path below a list item is outside the shared model when the overwrite is repaired)
+      r.val == m.plain.res.val && r.log == m.plain.res.log &&
+      ((D.ifaceErrNoPath && !D.listItemPathOverwrite) || r.errs == m.plain.res.errs)
 
 def judge (known : List String) (case impl : String) : JudgeOut :=
   match parse case with
@@ -244,7 +246,8 @@ def judge (known : List String) (case impl : String) : JudgeOut :=
             { pinnedX with plainPathSkipsLookup := !pinnedX.plainPathSkipsLookup },
             { plainPathSkipsLookup := !pinnedX.plainPathSkipsLookup, itemTypeAlwaysNonNull := false }]
           let cfgs : List (XDefects × List String) :=
-            xs.flatMap (fun X => (subsets ["u", "s", "r", "l", "i"]).map (fun on => (X, on)))
+            xs.flatMap (fun X => ([[], ["u", "s", "r", "l", "i"]] ++
+              (subsets ["u", "s", "r", "l", "i"]).filter (fun on => on.length ≠ 0 && on.length ≠ 5)).map (fun on => (X, on)))
           let hit := cfgs.find? (fun c =>
             let m := modelRun (mkD c.2) c.1 req n
             agrees m o && consistent (mkD c.2) req m)
